@@ -307,34 +307,35 @@ impl RtpsWriterProxy {
                 .missing_changes()
                 .take(256)
                 .find(|s| self.frag_buffer.iter().any(|x| &x.writer_sn() == s));
-            let rtps_message = if let Some(missing_change_fragments_seq_num) =
-                missing_change_fragments_seq_num
-            {
-                let frag = self
-                    .frag_buffer
-                    .iter()
-                    .find(|x| x.writer_sn() == missing_change_fragments_seq_num)
-                    .expect("Must exist");
+            let missing_fragments = missing_change_fragments_seq_num.and_then(|seq_num| {
+                let frag = self.frag_buffer.iter().find(|x| x.writer_sn() == seq_num)?;
                 let total_fragments_expected =
                     frag.data_size().div_ceil(frag.fragment_size() as u32);
                 let mut missing_fragments_iter = (1..=total_fragments_expected)
                     .filter(|frag_num| {
                         !self.frag_buffer.iter().any(|f| {
-                            f.writer_sn() == missing_change_fragments_seq_num
-                                && &f.fragment_starting_num() == frag_num
+                            f.writer_sn() == seq_num && &f.fragment_starting_num() == frag_num
                         })
                     })
                     .peekable();
 
-                let base = *missing_fragments_iter
-                    .peek()
-                    .expect("At least a fragment must be missing");
-                let fragment_number_state = FragmentNumberSet::new(base, missing_fragments_iter);
+                // The buffered fragments can overlap or be inconsistent with each other
+                // in which case there might be no fragment to ask for
+                let base = *missing_fragments_iter.peek()?;
+                // A FragmentNumberSet holds at most 256 fragment numbers starting from its base
+                let missing_fragments_iter =
+                    missing_fragments_iter.take_while(|frag_num| frag_num - base < 256);
+                Some((
+                    seq_num,
+                    FragmentNumberSet::new(base, missing_fragments_iter),
+                ))
+            });
+            let rtps_message = if let Some((seq_num, fragment_number_state)) = missing_fragments {
                 self.nack_frag_count = self.nack_frag_count.wrapping_add(1);
                 let nack_frag_submessage = NackFragSubmessage::new(
                     reader_guid.entity_id(),
                     self.remote_writer_guid().entity_id(),
-                    missing_change_fragments_seq_num,
+                    seq_num,
                     fragment_number_state,
                     self.nack_frag_count,
                 );
